@@ -9,7 +9,7 @@ from ..oracle import State
 from ..runner import Facet
 
 RULE = ("knot vectors of degree 0..4 (non-uniform, repeated knots), positive weights in ~40%, m in npts..npts+6 nodes "
-        "built so that every basis function has a node in its support (Schoenberg-Whitney) plus extra nodes, full "
+        "built so that every basis function has a node in its support (Schoenberg-Whitney) plus extra nodes (one time in three some nodes repeated: several measurements at one parameter), full "
         "column rank verified exactly; data: arbitrary rationals (noisy), or samples of a generated curve of the same "
         "space; default nodes when admissible; fit_function with a generated in-space function; too few points. "
         "Non-trivial: m > npts with a non-zero residual, or a repeated interior knot")
@@ -44,7 +44,12 @@ def node_sets(draw, U, p, extra_max=6):
             nodes.append(bk[-1])
         else:
             nodes.append(a + (b - a) * draw(fr) * draw(st.sampled_from([F(1), F(1, 2), F(9, 10)])))
-    return sorted(set(nodes))
+    nodes = sorted(set(nodes))
+    # several measurements at one parameter value are ordinary least-squares data: repeated nodes, different data
+    if draw(st.integers(0, 2)) == 0:
+        for _ in range(draw(st.integers(1, 3))):
+            nodes.append(draw(st.sampled_from(nodes)))
+    return sorted(nodes)
 
 
 @st.composite
@@ -105,7 +110,8 @@ def check(case, out):
     bk = oracle.breaks(U)
     rep = any(oracle.mult(U, z) >= 2 for z in bk[1:-1])
     out.cls(kind, "mode=" + mode, "repeated-knot" if rep else "simple-or-bezier", "vector" if dim else "scalar",
-            "nodes-sorted" if list(case["nodes"]) == sorted(case["nodes"]) else "nodes-unsorted")
+            "nodes-sorted" if list(case["nodes"]) == sorted(case["nodes"]) else "nodes-unsorted",
+            "repeated-node" if len(set(case["nodes"])) < len(case["nodes"]) else "distinct-nodes")
     curve = lib.Curve(Ulib)
     if wl is not None:
         curve.weights = wl
@@ -138,7 +144,7 @@ def check(case, out):
         call_nodes = lnodes
     m = len(nodes)
     if not exact:
-        srt = sorted(nodes)
+        srt = sorted(set(nodes))  # a repeated node costs no conditioning; cond(B) is checked below
         gaps = [b - a for a, b in zip(srt[:-1], srt[1:])]
         if gaps and min(gaps) < (U[-1] - U[0]) / 100:
             out.exclude("float-profile:clustered-nodes(ill-conditioned)")
